@@ -81,6 +81,19 @@ func c16String(tp *tape.Tape, allowNewline bool) (lit string, special bool, newl
 		if allowNewline && tp.Draw(6) == 0 {
 			b.WriteByte('\n')
 			newlines++
+			// interior lines that look like nothing (blank, spaces only) or like a comment
+			switch tp.Draw(6) {
+			case 0:
+				b.WriteByte('\n')
+				newlines++
+			case 1:
+				b.WriteString("  \n")
+				newlines++
+			case 2:
+				b.WriteString("; not a comment\n")
+				newlines++
+				special = true
+			}
 		}
 		if tp.Draw(12) == 0 {
 			b.WriteString([]string{"é", "£", "世", "ß", "→"}[tp.Draw(5)]) // valid UTF-8 only: readline decodes runes
@@ -106,7 +119,20 @@ func splitStringLines(pre, lit, post string) ([]string, []byte) {
 
 func drawC16Stmt(tp *tape.Tape, idx int, r *core.Result, defined *[]string) c16Stmt {
 	gv := "g" + string(rune('a'+idx))
-	switch tp.Draw(12) {
+	switch tp.Draw(14) {
+	case 12, 13: // a statement whose value is a string: the REPL echoes it, -eval prints it
+		lit, sp, nl := c16String(tp, tp.Bool())
+		if sp {
+			r.Inc("F7.special_chars_in_string", 1)
+		}
+		if nl > 0 {
+			r.Inc("F7.string_spanning_lines", 1)
+		}
+		l, c := splitStringLines("", lit, "")
+		if tp.Bool() {
+			l, c = splitStringLines("\"<\" + ", lit, " + \">\"")
+		}
+		return c16Stmt{l, c, true, "string-value"}
 	case 11: // a block that defines and calls a function with parameters and locals (self-contained: -eval too)
 		fn := "h" + string(rune('a'+idx))
 		k := tp.Draw(9)
@@ -230,6 +256,13 @@ func (C16) Run(tp *tape.Tape) core.Result {
 			r.Sample = h
 			return r
 		}
+		if st.kind == "string-value" && o.Val != "\""+o.Str+"\"" {
+			// the REPL shows a string value as its characters between quotes (value.Display's contract);
+			// -eval and write() show the characters themselves
+			r.Violation = &core.Violation{Clause: "repl-echo-of-string", Detail: fmt.Sprintf("the REPL would echo %q for a string whose characters are %q", o.Val, o.Str), History: h}
+			r.Sample = h
+			return r
+		}
 		exps[i] = exp{o.Out, o.Val, o.Str}
 		trace = trace.Str(o.Out).Str(o.Val)
 	}
@@ -237,6 +270,23 @@ func (C16) Run(tp *tape.Tape) core.Result {
 	for _, e := range exps {
 		wantScript += e.out
 		wantRepl += e.out + "> " + e.val + "\n"
+	}
+	// optionally the program ends itself: a last statement writes and calls exit(code) from inside a
+	// function. The twin never runs it (exit would end the simulator); what it must do is known:
+	// print, then end the process with that status, in every mode.
+	wantCode := 0
+	var exitStmt *c16Stmt
+	if tp.Draw(4) == 0 {
+		wantCode = 1 + tp.Draw(9)
+		es := c16Stmt{[]string{"{", "bye = (c) -> {", "write(\"bye\")", "exit(c)", "}", fmt.Sprintf("bye(%d)", wantCode), "write(\"not reached\")", "}"},
+			[]byte{'b', 'b', 'b', 'b', 'b', 'b', 'b', 't'}, true, "exit"}
+		exitStmt = &es
+		stmts = append(stmts, es)
+		n++
+		h.add(es.canon())
+		wantScript += "bye"
+		wantRepl += "bye"
+		r.Inc("F7.program_ends_with_exit", 1)
 	}
 
 	// ---- streams
@@ -296,13 +346,20 @@ func (C16) Run(tp *tape.Tape) core.Result {
 		return out, code
 	}
 	got, code := run("", sf)
-	if code != 0 || got != wantScript {
+	if code != wantCode || got != wantScript {
 		return finishC16(fail("file-mode-binary", fmt.Sprintf("cmd/calc <file> exit %d (-99 = did not terminate) printed %q, want %q", code, trunc(got, 300), trunc(wantScript, 300))), key, trace, h, multi, finalNewline)
 	}
 	r.Inc("mode.file_binary", 1)
 
-	// (a) in process: real Loop + FReader on the real file
+	// (a) in process: real Loop + FReader on the real file (not when the program calls exit():
+	// that would end the simulator process; the binary runs above and below cover it)
+	if exitStmt == nil {
+		r.Inc("mode.file_in_process", 1)
+	}
 	func() {
+		if exitStmt != nil {
+			return
+		}
 		defer func() {
 			if p := recover(); p != nil {
 				r.Violation = &core.Violation{Clause: "loop-panic", Detail: fmt.Sprint(p), History: h}
@@ -321,16 +378,22 @@ func (C16) Run(tp *tape.Tape) core.Result {
 	if r.Violation != nil {
 		return finishC16(r, key, trace, h, multi, finalNewline)
 	}
-	r.Inc("mode.file_in_process", 1)
 
 	got, code = run(rf)
-	if code != 0 || got != wantRepl {
+	if code != wantCode || got != wantRepl {
 		return finishC16(fail("repl-mode-binary", fmt.Sprintf("cmd/calc REPL exit %d (-99 = did not terminate) printed %q, want %q; stdin was %q", code, trunc(got, 300), trunc(wantRepl, 300), trunc(replText, 300))), key, trace, h, multi, finalNewline)
 	}
 	r.Inc("mode.repl_binary", 1)
+	if exitStmt != nil {
+		got, code := run("", "-eval", exitStmt.canon())
+		if code != wantCode || got != "bye" {
+			return finishC16(fail("eval-mode-binary", fmt.Sprintf("cmd/calc -eval of the exit statement: exit status %d, printed %q; want status %d and \"bye\"", code, trunc(got, 200), wantCode)), key, trace, h, multi, finalNewline)
+		}
+		r.Inc("mode.eval_binary", 1)
+	}
 	evals := 0
 	for i, st := range stmts {
-		if !st.evalable || evals >= 2 || len(st.canon()) > 100000 {
+		if !st.evalable || evals >= 2 || len(st.canon()) > 100000 || st.kind == "exit" {
 			continue
 		}
 		evals++
